@@ -60,11 +60,11 @@ def compose_configs(tier, seed):
     if tier == 'quick':
         return [spine_config('depth1-fullpool', wins[:4], 1, ALL_OPS, FULL_POOL | {'focusall'}, semlen=2),
                 spine_config('depth2-leaves', wins[:1], 2, ALL_OPS - {'enclose'}, set(), quants=QUANTS_TWO, names=())] + \
-            random_term_configs(tier, seed)
+            random_term_configs(tier, seed) + test_suite_term_configs()
     return [spine_config('depth1-fullpool', wins, 1, ALL_OPS | {'cond'}, FULL_POOL | {'focusall', 'lit3'}, semlen=2),
             spine_config('depth2-fullpool', wins[:5], 2, ALL_OPS, FULL_POOL),
             spine_config('depth3-leaves', wins[:2], 3, ALL_OPS - {'enclose'}, set(), quants=QUANTS_TWO, names=())] + \
-        random_term_configs(tier, seed)
+        random_term_configs(tier, seed) + test_suite_term_configs()
 
 
 # ----------------------------------------------------------------------------- C01
@@ -223,6 +223,40 @@ def terms_config(name, terms):
              cfg='SPECIFICATION TSpec\nPOSTCONDITION AllConsumed\nCHECK_DEADLOCK FALSE\n',
              extra_files={'terms.json': json.dumps([RT.to_json(t) for t in terms])})
     return c
+
+
+def _tuplify(x):
+    return tuple(_tuplify(e) for e in x) if isinstance(x, list) else x
+
+
+def harvest_test_suite():
+    """Run the repository's own test suite under the external tracer (guard PREGEX_VERIF_TRACE=1) and return the
+    recorded builder events as (term, exception name | None)."""
+    import json, os, subprocess, tempfile
+    from .farm import REPO, VERIF
+    from .tlc import scratch_root, MachineryError
+    fd, out = tempfile.mkstemp(prefix='pregex-verif.trace.', suffix='.jsonl', dir=scratch_root())
+    os.close(fd)
+    try:
+        env = dict(os.environ, PREGEX_VERIF_TRACE='1', PREGEX_VERIF_TRACE_OUT=out, PYTHONDONTWRITEBYTECODE='1',
+                   PYTHONPATH=VERIF + os.pathsep + os.path.join(REPO, 'src'))
+        p = subprocess.run(['/venv/bin/python', '-W', 'ignore', '-m', 'pytest', '-q', '-p', 'no:cacheprovider', '-p', 'harness.tracer',
+                            os.path.join(REPO, 'tests')], cwd=REPO, env=env, capture_output=True, text=True, timeout=900)
+        events = [json.loads(l) for l in open(out) if l.strip()]
+        if not events:
+            raise MachineryError('the tracer recorded nothing from the repository test suite:\n' + (p.stdout + p.stderr)[-1500:])
+        return [(_tuplify(t), e) for t, e in events]
+    finally:
+        os.remove(out)
+
+
+def test_suite_term_configs():
+    """Trace validation of the builder calls of the repository's test suite against Eval(term)."""
+    import json
+    ev = harvest_test_suite()
+    c = terms_config('repo-test-suite-builder-trace', [t for t, _ in ev])
+    c['params'] = {'recorded': {json.dumps(t): e for t, e in ev}}
+    return [c]
 
 
 def random_term_configs(tier, seed, n_quick=4000, n_thorough=60000):
